@@ -873,6 +873,53 @@ LINKING = {'en': ('plus', 'is'), 'fr': ('plus', 'voilà'), 'es': ('menos', 'son'
            'nl': ('plus', 'is')}
 
 
+def rule_numbers_after_linking(ctx, rep, langs=ALL_LANGS):
+    R = 'S07-AFTER-LINKING'
+    rep.rule(R, 'replace_numbers_in_text(threshold 0) in each real language: a number that follows a free-standing conjunction, linking word or '
+                'separator word ("cats and thousand dogs") is found exactly as without that word — a word the interpreter answers Incomplete / '
+                'rejects outside a number must leave nothing behind that makes the next number word unreadable')
+    ns = [1, 2, 5, 9, 10, 11, 12, 16, 20, 21, 70, 80, 90, 100, 101, 200, 1000, 2000, 1100, 10 ** 6, 2 * 10 ** 6]
+    jobs = {}
+    for lang in langs:
+        lx = lexicon(lang)
+        w1, w2 = WORDS[lang]
+        links = [x for x in [lx.get('conjunction')] + list(LINKING[lang]) + [lx['decimal_sep']] if x]
+        items = []
+        phrases = [' '.join(spellings(lang, n)[0]) for n in ns if spellings(lang, n)]
+        # every single word of the vocabulary as well: bare scale words ("tausend", "mille", "hundred") are numbers on their own
+        phrases += [c['w'] for c in lx['cardinals'] if c['tier'] == 'core' and c['w'] not in phrases]
+        for n, phrase in enumerate(phrases):
+            items.append((('bare', n), '%s %s %s' % (w1, phrase, w2), 0.0))
+            for li, lk in enumerate(links):
+                items.append((('after', n, li), '%s %s %s %s' % (w1, lk, phrase, w2), 0.0))
+                items.append((('twice', n, li), '%s %s %s %s %s' % (w1, lk, lk, phrase, w2), 0.0))
+        jobs[lang] = (items, links)
+    res = _memo(ctx, 'sent-after-linking', {k: v[0] for k, v in jobs.items()})
+    total = 0
+    for lang in langs:
+        items, links = jobs[lang]
+        w1, w2 = WORDS[lang]
+        bad, okc = [], 0
+        for key, text, th in items:
+            if key[0] == 'bare':
+                continue
+            total += 1
+            r0, r = res[lang][('bare', key[1])], res[lang][key]
+            if '?' in (r0[0], r[0]):
+                bad.append((text, r if r[0] == '?' else r0, ''))
+                continue
+            if r0[0] != 'ok' or not r0[1].startswith(w1 + ' '):
+                continue
+            lk = links[key[2]]
+            want = w1 + ' ' + (lk + ' ' if key[0] == 'after' else lk + ' ' + lk + ' ') + r0[1][len(w1) + 1:]
+            if r != ('ok', want):
+                bad.append((text, r, want))
+            else:
+                okc += 1
+        _report(rep, R, lang, 'after-linking', bad, okc)
+    rep.floor(R, total, 2000, 'sentences rewritten')
+
+
 def rule_linking_case(ctx, rep, langs=ALL_LANGS):
     R = 'S11-LINKING-CASE'
     rep.rule(R, 'replace_numbers_in_text at thresholds 0 and 10 in each real language: small numbers joined by linking words of the language\'s '
